@@ -156,6 +156,8 @@ theorem coreTab_valid {t : Tab} {n : Nat} {rels : List (List Int)}
     (hlet : ∀ w ∈ rels, ∀ x ∈ w, x ∈ allGensOf n)
     (hv : validTable t n rels [] = true) :
     ∃ c, coreTab n t = .ok c ∧ validTable c n rels [] = true ∧
+      (∀ w, (∀ g ∈ w, g ∈ letters n) →
+        (traceWord c n 0 w = some 0 ↔ ∀ r, r < t.size → traceWord t n r w = some r)) ∧
       ∃ lab : List (List Nat), c.size = lab.length ∧ lab.Nodup ∧
         (∀ es, es ∈ lab ↔ ∃ w, (∀ g ∈ w, g ∈ letters n) ∧ arrangement t n w = some es) := by
   have hV := valid_of_validTable hv
@@ -171,10 +173,46 @@ theorem coreTab_valid {t : Tab} {n : Nat} {rels : List (List Int)}
     intro y hy
     rw [iterAct_tuple]
     exact mapOpt_of_forall (fun e he => hV.rel r hr e ((hreach y hy).1 e he))
-  refine ⟨c, ?_, RebaseP.validTable_of_valid hvalid, lab, hc2, hnd, ?_⟩
+  have hidx : ∀ {i j : Nat} {a : List Nat}, lab[i]? = some a → lab[j]? = some a → i = j := by
+    intro i j a hi' hj
+    have h1 := List.getElem?_eq_some_iff.mp hi'
+    have h2 := List.getElem?_eq_some_iff.mp hj
+    exact (List.Nodup.getElem_inj_iff hnd).mp (h1.2.trans h2.2.symm)
+  refine ⟨c, ?_, RebaseP.validTable_of_valid hvalid, ?_, lab, hc2, hnd, ?_⟩
   · unfold coreTab tbl
     rw [hT]
     exact hc1
+  · intro w hw
+    -- the arrangement of w
+    have harr : iterAct (tupleAct t n) (List.range t.size) w =
+        some ((List.range t.size).map fun r => (traceWord t n r w).getD 0) := by
+      rw [iterAct_tuple]
+      apply mapOpt_of_pointwise (by simp)
+      intro k hk
+      have hk' : k < t.size := by simpa using hk
+      obtain ⟨d, hd⟩ := traceWord_total hV w k hk' hw
+      simp [hk', hd]
+    obtain ⟨j, hj1, hj2⟩ := trace_labelled hc3 w hw 0 _ _ h0 harr
+    constructor
+    · intro h00 r hr
+      rw [h00] at hj1
+      cases hj1
+      rw [h0] at hj2
+      have := Option.some.inj hj2
+      obtain ⟨d, hd⟩ := traceWord_total hV w r hr hw
+      have hget : ((List.range t.size).map fun r => (traceWord t n r w).getD 0)[r]? = some d := by
+        simp [hr, hd]
+      rw [← this] at hget
+      simp [hr] at hget
+      rw [hd, hget]
+    · intro hall
+      have : ((List.range t.size).map fun r => (traceWord t n r w).getD 0) = List.range t.size := by
+        apply List.ext_getElem (by simp)
+        intro k h1 h2
+        have hk : k < t.size := by simpa using h2
+        simp [hall k hk]
+      rw [this] at hj2
+      rw [hj1, hidx hj2 h0]
   · intro es
     unfold arrangement
     constructor
